@@ -11,8 +11,8 @@ CHECKS = {
     'C01': ('exploration', 'every call result compared type-exactly with the undecorated reference function over generated histories with management ops, all 12 classes, info-preserving keymaps + defaults, 18 backends', 'generated functions are deterministic and equality-respecting; codec value domains computed per backend; listed exclusions', PBT + 'differential oracle (undecorated function)'),
     'C02': ('exploration', 'per-call compute-once predicate from observed pre-state + derived at-most-once-per-key clause with an archive attached; incl. re-decoration, re-open and forked sessions', 'pre-state observed via f.__cache__() and archive snapshots; bounded histories', PBT + 'per-step predicate over observed pre-state and evaluation log'),
     'C06': ('exploration', 'independent recency/frequency model decides the exact LRU/MRU victim and the LFU/RR validity predicate after every overflow; thorough tier adds a bounded-exhaustive sweep of all 5^7 histories x 48 configs', 'usage model rebuilt from observed resident sets only; bulk load() excluded (no usage record)', PBT + 'reference policy model; bounded-exhaustive enumeration in the thorough tier'),
-    'C07': ('exploration', 'after every call: victims are in the archive with the same value, archive monotone, every computed result retrievable; 12 archive backends', 'alias-free keys for dir archives; archive contents read through __asdict__', PBT + 'history invariant oracle over archive snapshots'),
-    'C15': ('exploration', 'per-call ground truth for hit/miss/load from the observed pre-state and the evaluation log; resets; size/maxsize fields; raising calls', 'f.key() identifies the call (checked separately by C18)', PBT + 'per-step ground-truth oracle'),
+    'C07': ('exploration', 'after every call: victims are in the archive with the same value, archive monotone, every computed result retrievable; 12 archive backends; archive attached after decoration; results the archive cannot store; thorough tier adds a bounded-exhaustive sweep (all 7^5 histories x 88 configurations)', 'alias-free keys for dir archives; archive contents read through __asdict__', PBT + 'history invariant oracle over archive snapshots'),
+    'C15': ('exploration', 'per-call ground truth for hit/miss/load from the observed pre-state and the evaluation log; resets; size/maxsize fields; raising calls; degraded safe calls; thorough tier adds a bounded-exhaustive sweep (all 7^5 histories x 88 configurations)', 'f.key() identifies the call (checked separately by C18)', PBT + 'per-step ground-truth oracle'),
     'C16': ('exploration', '(a) raising calls: same exception object, one evaluation, state unchanged, and a twin run without the raising calls is indistinguishable afterwards; (b) safe decorators with hostile arguments under every keymap degrade to plain evaluation', 'twin equivalence observed through public state; hostile objects limited to unhashable / unencodable ones (raising __eq__ is outside the statement)', PBT + 'metamorphic twin-run oracle + differential oracle'),
     'C18': ('exploration', 'key() equals the storage key of every miss, lookup() agrees with the resident set, neither touches state, and a twin run without introspection ops is indistinguishable; ignore/tol/deep settings included', 'residency for archives used directly as the cache is the archive own membership test', PBT + 'metamorphic twin-run oracle + per-step predicates'),
     'C20': ('exploration', 'dill round trip of the decorated function: equal contents/info/config, then continuation on original vs clone (persistent storage rewound in between) compared step by step; independence and shared-store visibility', 'sqlite-backed caches do not pickle and are excluded', PBT + 'round-trip + lock-step differential oracle'),
@@ -28,7 +28,7 @@ CHECKS = {
     'C13': ('fault_enumeration', 'for each generated (prior state, operation) on 10 persistent archive configurations, EVERY crash point of the real I/O sequence is enumerated: the operation runs in a forked child under a libc interposition shim, is killed before its k-th mutating call for all k (plus partial writes), and a new process must open and read the archive and see each touched key old-or-new, untouched keys unchanged and no phantom key', 'process kill, not power loss; crash points are libc calls under the archive root; one operation per experiment; enumeration over k complete per (state, operation), the (state, operation) pairs themselves are sampled', 'fault injection driven by property-based generation (Hypothesis, stratified over configuration): generated prior histories and operations x exhaustive enumeration of kill points at libc-call granularity via an LD_PRELOAD shim; old-or-new oracle evaluated in a fresh process'),
     'C14': ('exploration', 'two or three real processes (own handles, own sqlite connections) run one archive operation each under a libc interposition shim in step mode: the harness grants one file-system call at a time, so every explored interleaving is deterministic and replayable; per case all atomic placements of each process at each event boundary of the other are enumerated, plus generated fine-grained interleavings; reader observations are judged by validity predicates (keys ever stored, values stored for that key, present-throughout keys found, complete earlier/later dictionary for the single-file archive) and the final contents by a fresh process', 'schedules between libc calls, sequentially consistent file semantics; fair finite schedules; same-key writers, deleters and two writers on a single-file archive are outside the statement', 'property-based testing over schedules (Hypothesis, stratified over configuration): generated operation sets and interleavings executed with real forked processes whose schedule the harness owns (LD_PRELOAD step mode); validity-predicate oracle per observation + final-state oracle'),
     'C05': ('exploration',
-            'generated histories over all 12 decorator classes x maxsize spellings (positional/keyword, 0, None, 1..6) x purge x 18 backends; per-call size predicate taken from the property statement; finds violations, cannot prove absence',
+            'generated histories over all 12 decorator classes x maxsize spellings (positional/keyword, 0, None, 1..6) x purge x 18 backends; per-call size predicate taken from the property statement, also for raising calls, after resets and with an archive attached later; thorough tier adds a bounded-exhaustive sweep (all 7^5 histories x 88 configurations); finds violations, cannot prove absence',
             'sizes observed via len(f.__cache__()) and f.info().size; bounded history length (<=60 ops) and pool size (<=8 keys)',
             'property-based testing (Hypothesis): generated call/load/dump/clear histories, per-step invariant oracle'),
 }
